@@ -69,7 +69,9 @@ func c14Scenarios(tier string) []c14Scenario {
 		{"grow-1to3", []int{0}, []int{0, 1, 2}},  // one source, several destinations in one synchronisation
 		{"handover-1to2", []int{0}, []int{1, 2}}, // everything leaves, to two destinations
 	}
-	faults := []string{"none", "recv-chunk:0:error", "recv-chunk:1:error", "recv-chunk:1:exit", "send-chunk:1:exit", "between-phases:0:exit", "recv-chunk:2:exit", "send-chunk:0:exit", "send-chunk:2:exit", "recv-chunk:2:error", "recv-chunk:0:exit"}
+	faults := []string{"none", "recv-chunk:0:error", "recv-chunk:1:error", "recv-chunk:1:exit", "send-chunk:1:exit", "between-phases:0:exit", "recv-chunk:2:exit", "send-chunk:0:exit", "send-chunk:2:exit", "recv-chunk:2:error", "recv-chunk:0:exit",
+		// the sender dies (or fails) after the destination confirmed and before it removed its own copy
+		"records-confirmed:0:exit", "shard-confirmed:0:exit", "records-confirmed:0:error", "shard-confirmed:0:error"}
 	synth := [][]int64{{chunk + 1, 100}, {chunk - 1}, {chunk}, {2*chunk + 4096}, {2 * chunk}, {chunk + 1, 2 * chunk}}
 	var out []c14Scenario
 	n := 16
